@@ -48,10 +48,20 @@ class Holder(Process):
 
 
 def run_case(case, via_add_timeline, carrier='int'):
-    mk, unmk = CARRIERS[carrier]
-    events = [(e['t'], {('vars', e['var']): mk(i + 1)}) for i, e in enumerate(case['tl'])]
+    if carrier == 'shared':
+        # one change dictionary per variable, listed for every event on that
+        # variable (a user's `on = {...}` reused at several times)
+        mk, unmk = CARRIERS['int']
+        objs = {}
+        for i, e in enumerate(case['tl']):
+            objs.setdefault(e['var'], {('vars', e['var']): i + 1})
+        events = [(e['t'], objs[e['var']]) for e in case['tl']]
+    else:
+        mk, unmk = CARRIERS[carrier]
+        events = [(e['t'], {('vars', e['var']): mk(i + 1)}) for i, e in enumerate(case['tl'])]
     split = carrier == 'int' and not via_add_timeline and case['run'] > case['ts']
-    holder = Holder({'time_step': case['ts'], 'carrier': carrier, 'count': split})
+    holder = Holder({'time_step': case['ts'], 'carrier': 'int' if carrier == 'shared' else carrier,
+                     'count': split})
     if via_add_timeline:
         processes = {'holder': holder}
         topology = {'holder': {'vars': ('vars',)}}
@@ -94,7 +104,8 @@ def run_case(case, via_add_timeline, carrier='int'):
 
 def check_case(rep, case, k=0):
     # list / dict valued events: every case wired through add_timeline in turn
-    variants = [(False, 'int'), (True, 'int'), (bool(k % 2), ('list', 'dict')[(k // 2) % 2])]
+    variants = [(False, 'int'), (True, 'int'), (bool(k % 2), ('list', 'dict')[(k // 2) % 2]),
+                (not k % 2, 'shared')]
     for via, carrier in variants:
         rep.evaluations += 1
         try:
@@ -105,6 +116,13 @@ def check_case(rep, case, k=0):
                           {'case': case})
             return
         exp = {float(r['time']): r['vals'] for r in case['rows']}
+        if carrier == 'shared':
+            # every event on a variable sets the value of the first one listed
+            first = {}
+            for i, e in enumerate(case['tl']):
+                first.setdefault(e['var'], i + 1)
+            exp = {t: {v: (first[v] if x else 0) for v, x in vals.items()}
+                   for t, vals in exp.items()}
         if got != exp:
             diff = sorted(t for t in set(got) | set(exp) if got.get(t) != exp.get(t))
             rep.violation(
